@@ -16,3 +16,4 @@ pub mod c07;
 pub mod c20;
 pub mod c18;
 pub mod c04;
+pub mod c16;
